@@ -20,10 +20,13 @@ RULE = ("random plasmas of 1-6 species (neutrals, bare nuclei, isotopes, element
         "n in 1e14..1e22, T in 0.1..1e4; one model per case (exc / rec / tcx / trp / brems / radfn), one route (direct, "
         "attached through plasma.models, Ray.trace through a uniform slab) and one scenario (all-positive, or exactly one "
         "guarded quantity zero/negative, or a zero coefficient); line windows cover every component by >= 12 sigma for all "
-        "six line-shape classes, continuum windows are arbitrary; 15 % of the cases are sequences: one plasma + one model instance "
+        "six line-shape classes, continuum windows are arbitrary; 13 % of the cases are sequences: one plasma + one model instance "
         "(direct or attached) lives through 3-8 legal changes (evaluation point on sign-changing profiles, provider via "
         "plasma.atomic_data / model.atomic_data, electron distribution, species replaced / added / removed, Bremsstrahlung "
-        "gaunt_factor) and is re-judged against the current state after every change; a case is non-trivial when a deciding "
+        "gaunt_factor) and is re-judged against the current state after every change; 7 % are several-models cases: 2-3 models of one type "
+        "(all five plasma models and RadiationFunction) on different plasmas / providers / parameters, built with their default "
+        "helper objects, all constructed first and then evaluated interleaved (older after newer and vice versa), each judged "
+        "against its own reference; a case is non-trivial when a deciding "
         "comparison ran on a non-zero expected emission or on a hostile (guard) input (sequences: a non-zero emission after at "
         "least one change); distinct = distinct case descriptors")
 LEVEL_TEXT = ("Exploration by runtime reference-model monitoring with an argument recorder: each generated configuration is "
@@ -35,7 +38,9 @@ LEVEL_NOTE = ("trusted: the closed-form expressions and CODATA-2018 constants in
               "size the windows")
 TECHNIQUE = ("runtime monitoring: per-call reference-model oracle + recording mock atomic-data provider (argument recorder) "
              "+ metamorphic linearity/additivity monitors over generated and hostile plasma states + history monitor (one model "
-             "instance across state changes, judged against the current state, evaluations attributed to the current provider)")
+             "instance across state changes, judged against the current state, evaluations attributed to the current provider; "
+             "several instances alive at once, each judged against its own reference, evaluations attributed to the evaluated "
+             "instance's provider)")
 ASSUMPTIONS = ["for thermal CX with several donors, a donor with non-positive density or temperature must contribute nothing and "
                "the remaining eligible donors still contribute (the documented total is a sum over donors; the zero clause is "
                "read per term)",
@@ -48,7 +53,7 @@ ASAN_MODULES = ['cherab.core.model.plasma.impact_excitation', 'cherab.core.model
 ASAN = dict(cases=1500, workers=8, timecap=240)
 QUICK = dict(cases=2000, workers=2, timecap=35)
 THOROUGH = dict(cases=200000, workers=16, timecap=600)
-REQUIRED = {"seq_evals": 400, "seq_nonzero_after_change": 150, "total": 200, "rate_args": 200, "guard": 80, "nonneg": 200, "linearity": 100, "additivity": 30,
+REQUIRED = {"seq_evals": 400, "seq_nonzero_after_change": 150, "multi_evals": 200, "multi_nonzero": 120, "total": 200, "rate_args": 200, "guard": 80, "nonneg": 200, "linearity": 100, "additivity": 30,
             "brems_bins": 100, "trp_bins": 50, "radfn_bins": 5}
 
 # own CODATA-2018 constants (REFMATH)
@@ -116,8 +121,10 @@ def _extra_species(rng, have, uniform, count, hostile_ok=True, exclude=()):
 
 def gen_case(rng, tier):
     r = rng.random()
-    if r < 0.15:
+    if r < 0.13:
         return _gen_seq(rng)
+    if r < 0.2:
+        return _gen_multi(rng)
     r = rng.random()
     kind = ("exc" if r < 0.17 else "rec" if r < 0.34 else "tcx" if r < 0.56 else "trp" if r < 0.74 else
             "brems" if r < 0.97 else "radfn")
@@ -1030,6 +1037,8 @@ def run_case(case, ctx):
     ctx.cls("route:" + case["route"])
     if kind == "seq":
         return _run_seq(case, ctx)
+    if kind == "multi":
+        return _run_multi(case, ctx)
     ctx.cls("%s:%s" % (kind, case["scenario"]))
     if kind in LINE_KINDS:
         _run_line(case, ctx)
@@ -1068,8 +1077,11 @@ def _seq_species(rng, el, q, hostile):
     return sp
 
 
-def _gen_seq(rng):
-    m = ("exc", "rec", "tcx", "trp", "brems")[int(rng.integers(5))]
+def _gen_seq(rng, m=None, multi=False):
+    """Sequence-style description of one plasma + one model.  With `multi` (member of a several-models case) every
+    line-shape class is allowed, helper objects are the defaults (no user integrator) and there are no steps."""
+    if m is None:
+        m = ("exc", "rec", "tcx", "trp", "brems")[int(rng.integers(5))]
     route = "direct" if rng.random() < 0.5 else "attached"
     case = dict(kind=m, route=route, seed=int(rng.integers(1, 2 ** 31)),
                 pt=[float(x) for x in rng.uniform(-0.4, 0.4, size=3)], dir=[float(x) for x in rng.normal(size=3)],
@@ -1079,10 +1091,11 @@ def _gen_seq(rng):
     if m in LINE_KINDS:
         _gen_line(rng, case, False)
         ls = case["shape"]
-        name = ls["name"] if ls["name"] in SEQ_SHAPES else SEQ_SHAPES[int(rng.integers(3))]
-        case["shape"] = dict(name=name, margin=ls["margin"], bins=min(ls["bins"], 200))
-        if name == "param_zeeman":
-            case["shape"]["params"] = [_logu(rng, -2.5, -1), float(rng.uniform(0, 1.5)), float(rng.uniform(-0.5, 0.5))]
+        if not multi:
+            name = ls["name"] if ls["name"] in SEQ_SHAPES else SEQ_SHAPES[int(rng.integers(3))]
+            case["shape"] = dict(name=name, margin=ls["margin"], bins=min(ls["bins"], 200))
+            if name == "param_zeeman":
+                case["shape"]["params"] = [_logu(rng, -2.5, -1), float(rng.uniform(0, 1.5)), float(rng.uniform(-0.5, 0.5))]
         required = SEQ_REQUIRED[m](case["line"]["el"], case["line"]["q"])
     elif m == "trp":
         _gen_trp(rng, case, False)
@@ -1091,7 +1104,7 @@ def _gen_seq(rng):
         _gen_brems(rng, case, False)
         case["gaunt"] = "argument" if rng.random() < 0.4 else "provider"
         case["gseed"] = int(rng.integers(1, 2 ** 31))
-        case["integrator"] = "tight" if rng.random() < 0.5 else "fixed"
+        case["integrator"] = "default" if multi else ("tight", "fixed", "default")[int(rng.integers(3))]
         case["gte"] = [0.2 * x for x in case["gte"]]
         required = set()
     case.update(kind="seq", model=m, scenario="sequence", zero_keys=[], lin=None, prefill=False, r0=list(case["pt"]),
@@ -1103,7 +1116,7 @@ def _gen_seq(rng):
     roles = [sp.get("role") for sp in case["species"]]
     ops = ["point"] * 3 + ["provider"] * 3 + ["electrons", "replace", "replace", "add", "remove"] + (["gaunt"] * 2 if m == "brems" else [])
     steps = []
-    for _ in range(int(rng.integers(3, 9))):
+    for _ in range(0 if multi else int(rng.integers(3, 9))):
         op = ops[int(rng.integers(len(ops)))]
         removable = [i for i, k in enumerate(keys) if k not in required]
         if (op == "remove" and not removable) or (op == "replace" and not keys):
@@ -1163,6 +1176,7 @@ def _seq_state(cur, r0):
 
 
 def _seq_line_window(cur, st):
+    """Window containing every component of the line for the current state (all line-shape classes)."""
     ln, ls = cur["line"], cur["shape"]
     lam0 = M.wavelength_value(cur["seed"], (ln["el"], ln["q"], _tr_key(ln["tr"])))
     ti = [i for i, sp in enumerate(cur["species"]) if sp.get("role") == "target"][0]
@@ -1172,16 +1186,31 @@ def _seq_line_window(cur, st):
     vmag = math.sqrt(sum(x * x for x in cur["species"][ti]["v"]))
     sigma = math.sqrt(ts * E / (aw * AMU)) * lam0 / C if ts > 0 else 0.0
     centres = [lam0]
-    if ls["name"] == "zeeman_triplet":
+    name = ls["name"]
+    extra, wmax = 0.0, 0.0
+    if name in ("zeeman_triplet", "stark"):
         e0 = HC_EV_NM / lam0
         centres += [HC_EV_NM / (e0 - MUB * bmag), HC_EV_NM / (e0 + MUB * bmag)]
-    elif ls["name"] == "param_zeeman":
+        if name == "stark":
+            ne, te = st["ne"], st["te"]
+            fl = cur["stark_cij"] * ne ** ls["aij"] / te ** ls["bij"] if ne > 0 and te > 0 else 0.0
+            wmax = max(fl, 2.3548200450309493 * sigma)
+            extra = 100.0 * wmax
+    elif name == "param_zeeman":
         al, be, ga = ls["params"]
         centres += [lam0 + 0.5 * al * bmag, lam0 - 0.5 * al * bmag]
         if ts > 0:
             sigma *= math.sqrt(1.0 + be * be * ts ** (2.0 * ga))
-    half = ls["margin"] * sigma + 1e-3
-    return dict(min=min(centres) * (1.0 - vmag / C) - half, max=max(centres) * (1.0 + vmag / C) + half, bins=ls["bins"])
+    elif name == "multiplet":
+        centres = [cur["lam0_build"] + o for o in ls["offsets"]]
+    elif name == "zeeman_multiplet":
+        centres += [cur["lam0_build"] + o for o, _ in ls["pi"] + ls["sp"] + ls["sm"]]
+    half = ls["margin"] * sigma + extra + 1e-3
+    lo, hi = min(centres) * (1.0 - vmag / C) - half, max(centres) * (1.0 + vmag / C) + half
+    bins = ls["bins"]
+    if name == "stark" and wmax > 0:
+        bins = int(math.ceil((hi - lo) / (ls["resolution"] * wmax)))      # resolved bins, see _line_setup
+    return dict(min=lo, max=hi, bins=bins)
 
 
 def _seq_brems_window(base, te):
@@ -1196,186 +1225,251 @@ def _seq_brems_window(base, te):
     return dict(min=lam0, max=lam0 + width, bins=base["bins"])
 
 
-def _run_seq(case, ctx):
-    from raysect.core import Point3D, Vector3D
-    from raysect.optical import Spectrum
-    from raysect.primitive import Box
-    from cherab.core import Plasma, Species, Maxwellian
-    from cherab.core import model as cm
-    from cherab.core.atomic import Line
-    from cherab.core.math.integrators import GaussianQuadrature
-    m, route, r0 = case["model"], case["route"], case["r0"]
-    ctx.cls("seq:" + m)
-    cur = dict(kind=m, route=route, seed=case["seed"], pt=list(case["pt"]), dir=list(case["dir"]), b=case["b"], zero_keys=[],
-               ne=case["ne"], te=case["te"], gne=case["gne"], gte=case["gte"], pkne=case["pkne"], pkte=case["pkte"],
-               species=[dict(sp) for sp in case["species"]], scenario="sequence")
-    for k in ("line", "shape", "elem"):
-        if k in case:
-            cur[k] = case[k]
-    providers = {}
+class Live:
+    """One real plasma + one real model instance built from a sequence-style description; `cur` is the harness-side
+    description of the current state (what the oracle sees), updated by `apply`."""
 
-    def prov(seed):
-        if seed not in providers:
-            providers[seed] = M.make_provider(seed)
-        return providers[seed]
+    def __init__(self, case):
+        from raysect.core import Point3D, Vector3D
+        from raysect.primitive import Box
+        from cherab.core import Plasma
+        from cherab.core import model as cm
+        from cherab.core.atomic import Line
+        from cherab.core.atomic.zeeman import ZeemanStructure
+        from cherab.core.math.integrators import GaussianQuadrature
+        self.case = case
+        m, route = case["model"], case["route"]
+        self.m, self.r0 = m, case["r0"]
+        self.cur = cur = dict(kind=m, route=route, seed=case["seed"], pt=list(case["pt"]), dir=list(case["dir"]), b=case["b"],
+                              zero_keys=[], ne=case["ne"], te=case["te"], gne=case["gne"], gte=case["gte"], pkne=case["pkne"],
+                              pkte=case["pkte"], species=[dict(sp) for sp in case["species"]], scenario="sequence",
+                              integrator=case.get("integrator"))
+        for k in ("line", "shape", "elem"):
+            if k in case:
+                cur[k] = case[k]
+        self.providers = {}
+        self.gaunt_src = None
+        plasma = self.plasma = Plasma()
+        plasma.electron_distribution = self._electrons()
+        plasma.b_field = Vector3D(*case["b"])
+        self.live = [self._species(sp) for sp in cur["species"]]
+        plasma.composition = self.live
+        if m in LINE_KINDS:
+            ln, ls = case["line"], case["shape"]
+            lam0 = cur["lam0_build"] = M.wavelength_value(case["seed"], (ln["el"], ln["q"], _tr_key(ln["tr"])))
+            name, args, kwargs = ls["name"], [], {}
+            cls = {"gaussian": cm.GaussianLine if case["seed"] % 2 else None, "zeeman_triplet": cm.ZeemanTriplet,
+                   "param_zeeman": cm.ParametrisedZeemanTriplet, "multiplet": cm.MultipletLineShape,
+                   "zeeman_multiplet": cm.ZeemanMultiplet, "stark": cm.StarkBroadenedLine}[name]
+            if name == "param_zeeman":
+                kwargs = dict(line_parameters=tuple(ls["params"]))
+            elif name == "multiplet":
+                args = [[[lam0 + o for o in ls["offsets"]], ls["ratios"]]]
+            elif name == "zeeman_multiplet":
+                comp = lambda lst: [(lam0 + o, r) for o, r in lst]
+                kwargs = dict(zeeman_structure=ZeemanStructure(comp(ls["pi"]), comp(ls["sp"]), comp(ls["sm"])))
+            elif name == "stark":
+                st = self.state()
+                ne, te = st["ne"], st["te"]
+                cur["stark_cij"] = ls["fwhm_l"] / (ne ** ls["aij"] / te ** ls["bij"]) if ne > 0 and te > 0 else 1e-20
+                kwargs = dict(stark_model_coefficients=(cur["stark_cij"], ls["aij"], ls["bij"]))   # default integrator
+            mk = dict(exc=cm.ExcitationLine, rec=cm.RecombinationLine, tcx=cm.ThermalCXLine)[m]
+            self.model = mk(Line(_element(ln["el"]), ln["q"], tuple(ln["tr"])), lineshape=cls, lineshape_args=args,
+                            lineshape_kwargs=kwargs)
+        elif m == "trp":
+            self.model = cm.TotalRadiatedPower(_element(case["elem"]["el"]), case["elem"]["q"])
+        else:
+            ik = case["integrator"]
+            integ = None if ik == "default" else (GaussianQuadrature(relative_tolerance=1e-10, min_order=4) if ik == "tight" else
+                                                  GaussianQuadrature(min_order=24, max_order=24))
+            if case["gaunt"] == "argument":
+                self.gaunt_src = case["gseed"]
+            self.model = cm.Bremsstrahlung(gaunt_factor=self.prov(self.gaunt_src).MockGaunt() if self.gaunt_src is not None else None,
+                                           integrator=integ)
+        if route == "direct":
+            self.model.plasma = plasma
+            self.model.atomic_data = self.prov(cur["seed"])
+        else:
+            plasma.geometry = Box(Point3D(-2, -2, -2), Point3D(2, 2, 2))
+            plasma.atomic_data = self.prov(cur["seed"])
+            plasma.models = [self.model]
 
-    def mk_species(sp):
+    def prov(self, seed):
+        if seed not in self.providers:
+            self.providers[seed] = M.make_provider(seed)
+        return self.providers[seed]
+
+    def _species(self, sp):
+        from raysect.core import Vector3D
+        from cherab.core import Species, Maxwellian
         el = _element(sp["el"])
+        r0 = self.r0
         return Species(el, sp["q"], Maxwellian(Prof(sp["n"], sp["gn"], r0, sp["pk"]), Prof(sp["t"], sp["gt"], r0, sp["pkt"]),
                                                Vector3D(*sp["v"]), el.atomic_weight * AMU))
 
-    def mk_electrons():
+    def _electrons(self):
+        from raysect.core import Vector3D
+        from cherab.core import Maxwellian
+        cur, r0 = self.cur, self.r0
         return Maxwellian(Prof(cur["ne"], cur["gne"], r0, cur["pkne"]), Prof(cur["te"], cur["gte"], r0, cur["pkte"]),
                           Vector3D(0, 0, 0), ME)
 
-    plasma = Plasma()
-    plasma.electron_distribution = mk_electrons()
-    plasma.b_field = Vector3D(*case["b"])
-    live = [mk_species(sp) for sp in cur["species"]]
-    plasma.composition = live
-    gaunt_src = None
-    if m in LINE_KINDS:
-        ln, ls = case["line"], case["shape"]
-        cls = {"gaussian": cm.GaussianLine if case["seed"] % 2 else None, "zeeman_triplet": cm.ZeemanTriplet,
-               "param_zeeman": cm.ParametrisedZeemanTriplet}[ls["name"]]
-        kwargs = dict(line_parameters=tuple(ls["params"])) if ls["name"] == "param_zeeman" else {}
-        mk = dict(exc=cm.ExcitationLine, rec=cm.RecombinationLine, tcx=cm.ThermalCXLine)[m]
-        model = mk(Line(_element(ln["el"]), ln["q"], tuple(ln["tr"])), lineshape=cls, lineshape_kwargs=kwargs)
-    elif m == "trp":
-        model = cm.TotalRadiatedPower(_element(case["elem"]["el"]), case["elem"]["q"])
-    else:
-        integ = GaussianQuadrature(relative_tolerance=1e-10, min_order=4) if case["integrator"] == "tight" else \
-            GaussianQuadrature(min_order=24, max_order=24)
-        if case["gaunt"] == "argument":
-            gaunt_src = case["gseed"]
-        model = cm.Bremsstrahlung(gaunt_factor=prov(gaunt_src).MockGaunt() if gaunt_src is not None else None, integrator=integ)
-    if route == "direct":
-        model.plasma = plasma
-        model.atomic_data = prov(cur["seed"])
-    else:
-        plasma.geometry = Box(Point3D(-2, -2, -2), Point3D(2, 2, 2))
-        plasma.atomic_data = prov(cur["seed"])
-        plasma.models = [model]
+    def state(self):
+        return _seq_state(self.cur, self.r0)
 
-    what = "initial"
-    changed = False
-    for k in range(len(case["steps"]) + 1):
-        if k > 0:
-            stp = case["steps"][k - 1]
-            op = stp["op"]
-            if op == "point":
-                cur["pt"], cur["dir"] = list(stp["pt"]), list(stp["dir"])
-                what = "point"
-            elif op == "provider":
-                if stp["via"] == "plasma":
-                    plasma.atomic_data = prov(stp["seed"])
-                else:
-                    model.atomic_data = prov(stp["seed"])
-                cur["seed"] = stp["seed"]
-                what = "provider:" + stp["via"]
-            elif op == "electrons":
-                for f in ("ne", "te", "gne", "gte", "pkne", "pkte"):
-                    cur[f] = stp[f]
-                plasma.electron_distribution = mk_electrons()
-                what = "electrons"
-            elif op == "replace":
-                cur["species"][stp["i"]] = dict(stp["sp"])
-                live[stp["i"]] = mk_species(stp["sp"])
-                plasma.composition.add(live[stp["i"]])
-                what = "replace-species"
-            elif op == "add":
-                cur["species"].append(dict(stp["sp"]))
-                live.append(mk_species(stp["sp"]))
-                plasma.composition.add(live[-1])
-                what = "add-species"
-            elif op == "remove":
-                cur["species"].pop(stp["i"])
-                live.pop(stp["i"])
-                plasma.composition = list(live)
-                what = "remove-species"
+    def apply(self, stp):
+        """Apply one legal change to the live objects and to the description; returns its label."""
+        cur, plasma, live, op = self.cur, self.plasma, self.live, stp["op"]
+        if op == "point":
+            cur["pt"], cur["dir"] = list(stp["pt"]), list(stp["dir"])
+            return "point"
+        if op == "provider":
+            if stp["via"] == "plasma":
+                plasma.atomic_data = self.prov(stp["seed"])
             else:
-                gaunt_src = stp["seed"]
-                model.gaunt_factor = prov(gaunt_src).MockGaunt() if gaunt_src is not None else None
-                what = "gaunt-factor"
-            changed = True
-            ctx.cls("seq-step:" + what)
-        for p in providers.values():
+                self.model.atomic_data = self.prov(stp["seed"])
+            cur["seed"] = stp["seed"]
+            return "provider:" + stp["via"]
+        if op == "electrons":
+            for f in ("ne", "te", "gne", "gte", "pkne", "pkte"):
+                cur[f] = stp[f]
+            plasma.electron_distribution = self._electrons()
+            return "electrons"
+        if op == "replace":
+            cur["species"][stp["i"]] = dict(stp["sp"])
+            live[stp["i"]] = self._species(stp["sp"])
+            plasma.composition.add(live[stp["i"]])
+            return "replace-species"
+        if op == "add":
+            cur["species"].append(dict(stp["sp"]))
+            live.append(self._species(stp["sp"]))
+            plasma.composition.add(live[-1])
+            return "add-species"
+        if op == "remove":
+            cur["species"].pop(stp["i"])
+            live.pop(stp["i"])
+            plasma.composition = list(live)
+            return "remove-species"
+        self.gaunt_src = stp["seed"]
+        self.model.gaunt_factor = self.prov(self.gaunt_src).MockGaunt() if self.gaunt_src is not None else None
+        return "gaunt-factor"
+
+    def clear_events(self):
+        for p in self.providers.values():
             del p.events[:]
-        st = _seq_state(cur, r0)
+
+    def evaluate(self, ctx):
+        """emission() on a fresh zero Spectrum for the current state; returns (state, window, samples) or None (skipped)."""
+        from raysect.core import Point3D, Vector3D
+        from raysect.optical import Spectrum
+        cur, m = self.cur, self.m
+        st = self.state()
         if m in LINE_KINDS:
             window = _seq_line_window(cur, st)
             if window["min"] < 2.0:
                 ctx.skip("line window would reach non-positive wavelengths")
-                continue
+                return None
+            if window["bins"] > 8000:
+                ctx.skip("resolved Stark window would need more than 8000 bins")
+                return None
+            ti = [i for i, sp in enumerate(cur["species"]) if sp.get("role") == "target"][0]
+            if cur["shape"]["name"] == "stark" and st["t"][ti] <= 0:
+                ctx.skip("StarkBroadenedLine with a non-positive emitter temperature is not judged")
+                return None
         elif m == "trp":
-            window = case["window"]
+            window = self.case["window"]
         else:
-            window = _seq_brems_window(case["window"], st["te"])
-        out = model.emission(Point3D(*cur["pt"]), Vector3D(*cur["dir"]), Spectrum(window["min"], window["max"], window["bins"]))
-        got = np.array(out.samples, dtype=float)
-        if not _seq_judge(ctx, m, cur, st, window, got, what, k, providers, gaunt_src, changed):
+            window = _seq_brems_window(self.case["window"], st["te"])
+        out = self.model.emission(Point3D(*cur["pt"]), Vector3D(*cur["dir"]), Spectrum(window["min"], window["max"], window["bins"]))
+        return st, window, np.array(out.samples, dtype=float)
+
+
+def _run_seq(case, ctx):
+    m = case["model"]
+    ctx.cls("seq:" + m)
+    lv = Live(case)
+    what, changed = "initial", False
+    for k in range(len(case["steps"]) + 1):
+        if k > 0:
+            what = lv.apply(case["steps"][k - 1])
+            changed = True
+            ctx.cls("seq-step:" + what)
+        lv.clear_events()
+        r = lv.evaluate(ctx)
+        if r is None:
+            continue
+        st, window, got = r
+        key = "sequence:%s:stale-after:%s" % (m, what) if what != "initial" else "sequence:%s:initial" % m
+        msg = ("emission of a model instance that lived through a change of %s differs from the documented expression evaluated "
+               "for the current state" % what) if what != "initial" else "emission differs from the documented expression"
+        ok, nonzero = _live_judge(ctx, lv, st, window, got, key, msg, "sequence:" + m, ":" + "after:" + what,
+                                  dict(step=k, after=what, route=case["route"]), "seq_steps")
+        ctx.mon("seq_evals")
+        if changed and nonzero:
+            ctx.nontrivial()
+            ctx.mon("seq_nonzero_after_change")
+        if not ok:
             return
 
 
-def _seq_judge(ctx, m, cur, st, window, got, what, k, providers, gaunt_src, changed):
-    """Compare one evaluation with the documented expression for the current state; False stops the sequence."""
-    key = "sequence:%s:stale-after:%s" % (m, what) if what != "initial" else "sequence:%s:initial" % m
-    detail = dict(step=k, after=what, route=cur["route"])
+def _live_judge(ctx, lv, st, window, got, key, msg, pre, suffix, detail, monitor):
+    """Compare one evaluation of a Live model with the documented expression for its current state.
+    Returns (ok, non-degenerate)."""
+    m, cur, providers, gaunt_src = lv.m, lv.cur, lv.providers, lv.gaunt_src
     ne, te = st["ne"], st["te"]
     P = providers[cur["seed"]]
     if not np.all(np.isfinite(got)):
-        ctx.viol("sequence:%s:non-finite-after:%s" % (m, what), "non-finite sample", **detail)
-        return False
-    msg = ("emission of a model instance that lived through a change of %s differs from the documented expression evaluated "
-           "for the current state" % what) if what != "initial" else "emission differs from the documented expression"
+        ctx.viol("%s:non-finite%s" % (pre, suffix), "non-finite sample", **detail)
+        return False, False
     dl = (window["max"] - window["min"]) / window["bins"]
     ok = True
     if m in LINE_KINDS:
         want, _, _ = _line_oracle(cur, st)
         total = float(got.sum() * dl)
         if want == 0.0:
-            ok = ctx.check(bool(np.all(got == 0.0)), key, msg, monitor="seq_steps", got=total, want=0.0, **detail)
+            ok = ctx.check(bool(np.all(got == 0.0)), key, msg, monitor=monitor, got=total, want=0.0, **detail)
+        elif cur["shape"]["name"] == "stark":
+            ok = ctx.close(total, want, key, msg, rtol=1e-3, monitor=monitor + "_stark", **detail)
         else:
-            ok = ctx.close(total, want, key, msg, rtol=1e-9, monitor="seq_steps", **detail)
+            ok = ctx.close(total, want, key, msg, rtol=1e-9, monitor=monitor, **detail)
+        if want != 0.0:
             ok = ctx.check(bool(got.min() >= -1e-12 * float(np.abs(got).max())), key, "negative spectral sample", monitor="nonneg",
                            **detail) and ok
     elif m == "trp":
         pd = _trp_power_density(cur, st)
         if pd is None:
             ctx.skip("hydrogen-isotope neutral densities of mixed sign (statement silent)")
-            return True
+            return True, False
         want = pd / (4 * math.pi * (window["max"] - window["min"]))
         if want == 0.0:
-            ok = ctx.check(bool(np.all(got == 0.0)), key, msg, monitor="seq_steps", max_sample=float(np.abs(got).max()), **detail)
+            ok = ctx.check(bool(np.all(got == 0.0)), key, msg, monitor=monitor, max_sample=float(np.abs(got).max()), **detail)
         else:
-            ok = ctx.close(got, np.full(got.size, want), key, msg, rtol=1e-12, monitor="seq_steps", **detail)
+            ok = ctx.close(got, np.full(got.size, want), key, msg, rtol=1e-12, monitor=monitor, **detail)
     else:
         ions = [(float(sp["q"]), st["n"][i]) for i, sp in enumerate(cur["species"]) if sp["q"] > 0 and st["n"][i] > 0]
         if ne <= 0 or te <= 0 or not ions:
             want = 0.0
-            ok = ctx.check(bool(np.all(got == 0.0)), key, msg, monitor="seq_steps", max_sample=float(np.abs(got).max()), **detail)
+            ok = ctx.check(bool(np.all(got == 0.0)), key, msg, monitor=monitor, max_sample=float(np.abs(got).max()), **detail)
         else:
             gs = gaunt_src if gaunt_src is not None else cur["seed"]
             wantv = _brems_bin_average(window, ne, te, ions, lambda z, t, x: M.gaunt_value(gs, z, t, x))
             want = float(wantv.max())
-            ok = ctx.close(got, wantv, key, msg, rtol=1e-7, atol=1e-300, monitor="seq_steps", **detail)
-    ctx.mon("seq_evals")
-    if changed and (np.any(got != 0.0) or want != 0.0):
-        ctx.nontrivial()
-        ctx.mon("seq_nonzero_after_change")
+            dflt = cur.get("integrator") == "default"      # GaussianQuadrature(relative_tolerance=1e-5) per bin
+            ok = ctx.close(got, wantv, key, msg, rtol=2e-4 if dflt else 1e-7, atol=1e-300,
+                           monitor=monitor + ("_default_integrator" if dflt else ""), **detail)
+    nonzero = bool(np.any(got != 0.0) or want != 0.0)
     if not ok:
-        return False
+        return False, nonzero
     # recorded evaluations must belong to the current provider(s) and carry the current plasma values
     current = {cur["seed"]} | ({gaunt_src} if gaunt_src is not None else set())
     for seed, p in providers.items():
         if seed in current:
             continue
         stale = [e for e in p.events if e[0] == "eval"]
-        if not ctx.check(not stale, "sequence:%s:foreign-provider-evaluated-after:%s" % (m, what),
+        if not ctx.check(not stale, "%s:foreign-provider-evaluated%s" % (pre, suffix),
                          "a coefficient object of a provider that is no longer the model's atomic data source was evaluated",
                          monitor="rate_args", family=stale[0][1] if stale else None, **detail):
-            return False
-    pre = "sequence:" + m
+            return False, nonzero
     if m in ("exc", "rec"):
         ln = cur["line"]
         _check_rate_args(ctx, P, m, (ln["el"], ln["q"], _tr_key(ln["tr"])), (ne, te), pre, detail)
@@ -1385,7 +1479,7 @@ def _seq_judge(ctx, m, cur, st, window, got, what, k, providers, gaunt_src, chan
         for kk, calls in _events(P, "tcx").items():
             if kk not in bykey:
                 ctx.viol(pre + ":rate-key:tcx", "thermal CX coefficient evaluated for a donor that is not in the plasma: %r" % (kk,), **detail)
-                return False
+                return False, nonzero
             arr = np.array(calls, dtype=float)
             ctx.close(arr, np.broadcast_to(np.array((ne, te, st["t"][bykey[kk]])), arr.shape), pre + ":rate-args:tcx",
                       "thermal CX coefficient evaluated at arguments other than (n_e, T_e, T_donor) of the current state",
@@ -1401,7 +1495,100 @@ def _seq_judge(ctx, m, cur, st, window, got, what, k, providers, gaunt_src, chan
             ctx.check(bool(np.all(calls[:, 1] == te)), pre + ":gaunt-args", "Gaunt factor evaluated at a temperature other than the "
                       "electron temperature of the current state", monitor="rate_args", **detail)
         if gaunt_src is not None:
-            ctx.check(not [e for e in P.events if e[0] == "eval" and e[1] == "gaunt"], pre + ":gaunt-source-after:%s" % what,
+            ctx.check(not [e for e in P.events if e[0] == "eval" and e[1] == "gaunt"], "%s:gaunt-source%s" % (pre, suffix),
                       "the provider's Gaunt factor was evaluated although a Gaunt factor was supplied to the model",
                       monitor="rate_args", **detail)
-    return True
+    return True, nonzero
+
+
+# ------------------------------------------------------------------------------------------------------------------
+# several models of one type alive at once ("multi"): 2-3 instances on different plasmas / providers / parameters, all
+# built with their default helper objects, evaluated interleaved and each judged against its own reference — module-level
+# or class-level state shared between instances shows as cross-talk
+# ------------------------------------------------------------------------------------------------------------------
+
+def _gen_multi(rng):
+    m = ("exc", "rec", "tcx", "trp", "brems", "brems", "radfn")[int(rng.integers(7))]
+    n = int(rng.integers(2, 4))
+    if m == "radfn":
+        members = [_gen_radfn(rng) for _ in range(n)]
+    else:
+        members = [_gen_seq(rng, m=m, multi=True) for _ in range(n)]
+    order = [int(i) for i in rng.permutation(n)] + [int(i) for i in rng.permutation(n)]
+    if rng.random() < 0.5:
+        order = [n - 1] + order        # newest first, then an older one
+    return dict(kind="multi", model=m, route="multi", scenario="multi", members=members, order=order)
+
+
+class LiveRadfn:
+    def __init__(self, case):
+        from raysect.core import Point3D
+        from raysect.optical import World
+        from raysect.primitive import Box
+        from cherab.tools.emitters import RadiationFunction
+        self.case = case
+        sx, sy, sz = case["size"]
+        self.power = power = case["power"] if case["scenario"] == "positive" else 0.0
+        self.world = World()
+        fn = power if case["window"]["bins"] % 2 else (lambda x, y, z: power)
+        Box(Point3D(0, 0, 0), Point3D(sx, sy, sz), parent=self.world, material=RadiationFunction(fn, step=case["step"]))
+
+    def evaluate(self):
+        from raysect.core import Point3D, Vector3D
+        from raysect.optical import Ray
+        case = self.case
+        sx, sy, sz = case["size"]
+        a = case["angle"]
+        d = (-math.cos(a), math.sin(a), 0.0)
+        o = (sx / 2 - 3.0 * d[0], sy / 2 - 3.0 * d[1], sz / 2)
+        w = case["window"]
+        ray = Ray(origin=Point3D(*o), direction=Vector3D(*d), min_wavelength=w["min"], max_wavelength=w["max"], bins=w["bins"])
+        got = np.array(ray.trace(self.world).samples, dtype=float)
+        want = self.power / (4 * math.pi * (w["max"] - w["min"])) * _clip_box(o, d, (0, 0, 0), (sx, sy, sz))
+        return got, want
+
+
+def _run_multi(case, ctx):
+    m = case["model"]
+    ctx.cls("multi:" + m)
+    key = "multi:%s:cross-talk" % m
+    msg = ("with several %s models alive at once, a model's emission differs from the documented expression evaluated on its own "
+           "plasma / parameters" % m)
+    if m == "radfn":
+        lives = [LiveRadfn(c) for c in case["members"]]
+        for j, i in enumerate(case["order"]):
+            got, want = lives[i].evaluate()
+            ctx.mon("multi_evals")
+            if want == 0.0:
+                ok = ctx.check(bool(np.all(got == 0.0)), key, msg, monitor="multi_bins", member=i, position=j)
+            else:
+                ok = ctx.close(got, np.full(got.size, want), key, msg, rtol=TRACE_RTOL, monitor="multi_bins", member=i, position=j)
+                ctx.nontrivial()
+                ctx.mon("multi_nonzero")
+            if not ok:
+                return
+        return
+    lives = [Live(c) for c in case["members"]]          # all constructed and attached before any evaluation
+    for j, i in enumerate(case["order"]):
+        for lv in lives:
+            lv.clear_events()
+        r = lives[i].evaluate(ctx)
+        if r is None:
+            continue
+        st, window, got = r
+        detail = dict(member=i, position=j, order=case["order"], route=case["members"][i]["route"])
+        ok, nonzero = _live_judge(ctx, lives[i], st, window, got, key, msg, "multi:" + m, "", detail, "multi_bins")
+        ctx.mon("multi_evals")
+        if nonzero:
+            ctx.nontrivial()
+            ctx.mon("multi_nonzero")
+        if not ok:
+            return
+        for o, lv in enumerate(lives):
+            if o == i:
+                continue
+            foreign = [e for p in lv.providers.values() for e in p.events if e[0] == "eval"]
+            if not ctx.check(not foreign, "multi:%s:other-model-provider-evaluated" % m,
+                             "evaluating one model evaluated a coefficient that belongs to another model instance's provider",
+                             monitor="rate_args", family=foreign[0][1] if foreign else None, other=o, **detail):
+                return
